@@ -204,6 +204,8 @@ def run(ctx):
     bad = monitor(ctx, groups)
     for b in bad[:6]:
         ctx.finding("crystal:%d:%s" % (b["group"], b["complaints"][0][:40]), "group %d: %s" % (b["group"], b["complaints"][0]), {"kind": "failing-input", "case": b})
+    import analyzer_hist
+    analyzer_hist.check(ctx, "C12", broken)
     if broken and not ctx.findings:
         ctx.finding("unproved", "proof/correspondence broken, no failing crystal found", {"kind": "broken-obligation", "broken": broken}, found_input=False)
     ctx.coverage["broken"] = [{"what": k, "info": i} for k, i in broken]
